@@ -169,3 +169,30 @@ CHECKS.update({
     "C27": ("6/C27", "JOURNAL SEAM ONLY: 7 workflows (2- and 3-step chains, fan-out with two concurrent workers + order-sensitive fan-in, three items for two workers, a worker that fails once next to a sibling, zero-delay retry, waiter + external event) on the real control loop with the real InternalDBOSAdapter.wait_for_next_task, TaskJournal and SqliteJournalCrud (DB file) over modelled DBOS durable operations (function ids in call order; a recorded result is returned on recovery without re-execution at an explorer-chosen moment) x every completion order within the deviation bound x process stop after every durable write (operation result or journal row) x recovery; the recovered tick log must extend the original one, durable operations must be called in the recorded order, and the run must finish.",
             "Partial claim: the dbos library, DBOSRuntime.run_workflow, DBOS streams and Postgres are not executed; the DBOS durable-operation semantics are a model written from its documentation (stated in the evidence assumptions). No scheduled wake-ups in the programs (timeout outcomes of wait_for_next_task are not journaled).", CRASH_TECH),
 })
+
+# --- additions of the sixth seeding round (DESIGN.md 15.6): what each widened check now also enumerates --------------
+_ROUND6 = {
+    "C02": " Also: a single-worker step whose first input waits (with a timeout) while its second input keeps the slot busy - the answer arrives in time, the re-entry is queued behind the busy slot and the timeout elapses meanwhile: the answer accepted as the wait result must be what wait_for_event returns (a wait whose timeout has fired no longer counts as waiting).",
+    "C03": " The catalog's snapshot+resume programs include runs with two DIFFERENT steps executing at the snapshot (worker step + gated collector).",
+    "C04": " Also with a decorating adapter whose own close() raises during the teardown, for every kind of end (stop, failure, cancel, timeout) racing clean-up writers.",
+    "C05": " Also with another step that accepts the same event as the failing one: one that never fails (must run exactly once and see no retry data) or one failing under its own larger budget (each step counts only its own attempts and sees only its own previous exception).",
+    "C06": " Also sums of three and four strategies written as a + b + c, sum([...]) and nested wait_combine.",
+    "C07": " Every seeded value of every wait term is also computed in two fresh processes with different hash salts (PYTHONHASHSEED) and must agree: a replaying process is another process.",
+    "C08": " Layouts include handlers scoped to NO step (for_steps=[]), alone, next to a wildcard and next to a scoped owner.",
+    "C09": " Also an invocation that got None from collect_events and then does not complete: it fails (retry) or suspends in wait_for_event (the genuine defect found here - the stale attempt was both re-run and retried - was repaired, fix 6a4936c).",
+    "C12": " Also a typed run state (pydantic model) whose list / dict fields are never assigned, only mutated in place, next to an assigned and an untouched field.",
+    "C13": " Also a fan-out with two workers under way plus a step that keeps the run busy (never idle), stopped once or twice (the genuine defect found here - worker slots renumbered on resume - was repaired, fix bfc0f31); in the restart-write-fault programs virtual time may pass so that the server's own write backoff elapses.",
+    "C14": " Also chains of three retry delays / three waiter timeouts, each shorter than idle_timeout (2D, 1.5D) but together longer, with no client event in between: the run must never be released on the way.",
+    "C18": " Exceptions include KeyErrors whose key is a string that reads as a Python literal ('42', 'None', '[1]', \"'quoted'\", \"it's\", ''), and non-string keys.",
+    "C21": " Also handler queries / deletes whose id lists hold more than a thousand values (second and later such calls on the same column).",
+    "C22": " Also a factory that fails once while ANOTHER step's resolution is open inside a slow async factory, the retry resolving the failed resource again before that other resolution has finished.",
+    "C24": " Also a handler id written again under another workflow name, followed by workflow_name_in queries / deletes.",
+    "C28": " Tracked-prefix start states carry the bookkeeping table as RELEASED code created it (frozen copy of the DDL).",
+    "C30": " Also two instances constructed with the same explicit workflow_name (equal limits, and a wide instance in flight before a narrow one): limits stay per instance.",
+    "C31": " Also cancel requests made through handler.cancel_run(timeout=0) - giving up waiting must not do anything to the run.",
+    "C33": " Also secrets and resources of 1 MiB - 4 KiB, 1 MiB - 20 B and 1 MiB (the size limit of a cluster object), plain and encrypted.",
+    "C36": " Also a continued handler: the new run is started WITH state (the finished run's context), does not open the state store before it idles, is released and reloaded on demand, and must continue from the inherited state.",
+}
+for _k, _add in _ROUND6.items():
+    _t = CHECKS[_k]
+    CHECKS[_k] = (_t[0], _t[1] + _add, *_t[2:])
